@@ -3,7 +3,7 @@
 use crate::catalogue::*;
 use crate::explore::{closure, guard, run_jobs, tree, Job, JobOut, Step};
 use crate::report::{CheckOutput, Sink, Stats, Violation};
-use crate::scalar::{opt_key, Scalar};
+use crate::scalar::{opt_key, opt_same, Scalar};
 use crate::spec::{build, unary_catalogue, Dyn, Kind, Spec, BINARY};
 use crate::{Ctx, Tier};
 use serde_json::json;
@@ -285,6 +285,97 @@ fn check_closure(spec: &Spec, cap: usize, st: &mut Stats, sink: &Sink) {
     );
 }
 
+/// `Clone::clone_from` is the other way of taking a clone (what `Vec::clone_from` and
+/// `Option::clone_from` forward to): after `b.clone_from(&a)`, b must continue exactly like a and like
+/// `a.clone()`, whatever b was before - a differently configured instance that has seen a different
+/// history. Statically typed (the trait object of the harness cannot express `clone_from`).
+fn clone_from_static(st: &mut Stats, sink: &Sink) {
+    use sliding_features::pure_functions::*;
+    use sliding_features::rolling::*;
+    use sliding_features::sliding_windows::*;
+    let e = Echo::<f64>::new;
+    let pre_a = [0.7, -3.3, 0.1, 0.1, 2.5, -1.0, 0.3];
+    let pre_b = [5.0, 4.0, 4.0, -2.0];
+    let suffixes = crate::explore::sequences(&[0.1, 0.7, -3.3], 4);
+    macro_rules! cf {
+        ($name:expr, $a:expr, $b:expr) => {{
+            st.configs += 1;
+            'sfx: for sfx in &suffixes {
+                let r = crate::explore::guard(|| {
+                    let (mut a, mut b) = ($a, $b);
+                    for x in pre_a {
+                        a.update(x);
+                    }
+                    for x in pre_b {
+                        b.update(x);
+                    }
+                    b.clone_from(&a);
+                    let mut c = a.clone();
+                    if !opt_same::<f64>(a.last(), b.last()) {
+                        return Some((0usize, a.last(), b.last(), c.last()));
+                    }
+                    for (i, x) in sfx.iter().enumerate() {
+                        a.update(*x);
+                        b.update(*x);
+                        c.update(*x);
+                        if !opt_same::<f64>(a.last(), b.last()) || !opt_same::<f64>(a.last(), c.last()) {
+                            return Some((i + 1, a.last(), b.last(), c.last()));
+                        }
+                    }
+                    None
+                });
+                st.transitions += 3 * sfx.len() as u64 + 11;
+                st.oracle_evals += 2 * sfx.len() as u64 + 1;
+                st.traces += 1;
+                match r {
+                    Ok(None) => {}
+                    Ok(Some((i, a, b, c))) => {
+                        let mut h = pre_a.to_vec();
+                        h.extend_from_slice(&sfx[..i]);
+                        sink.push(Violation::new("C17", &Spec::echo(), "clone_from", "f64", &h, format!("{}: after b.clone_from(&a) (b configured differently, with another history) and {} further updates: a reports {}, b reports {}, a.clone() reports {}", $name, i, opt_key(a), opt_key(b), opt_key(c))).tag("static"));
+                        break 'sfx;
+                    }
+                    Err(_) => break 'sfx,
+                }
+            }
+        }};
+    }
+    cf!("GTE", GTE::new(e(), 0.5), GTE::new(e(), -2.0));
+    cf!("LTE", LTE::new(e(), 0.5), LTE::new(e(), 7.0));
+    cf!("Constant", Constant::new(2.0f64), Constant::new(-1.0f64));
+    cf!("Sma", Sma::new(e(), 3), Sma::new(e(), 5));
+    cf!("Ema", Ema::new(e(), 3), Ema::new(e(), 5));
+    cf!("Ema::with_alpha", Ema::with_alpha(e(), 3, 1.0), Ema::with_alpha(e(), 3, 2.0));
+    cf!("Alma", Alma::new(e(), 3), Alma::new(e(), 5));
+    cf!("Alma::new_custom", Alma::new_custom(e(), 3, 4.0, 0.5), Alma::new_custom(e(), 3, 6.0, 0.85));
+    cf!("Cumulative", Cumulative::new(e(), 3), Cumulative::new(e(), 5));
+    cf!("Min", Min::new(e(), 3), Min::new(e(), 5));
+    cf!("Max", Max::new(e(), 3), Max::new(e(), 5));
+    cf!("Roc", Roc::new(e(), 3), Roc::new(e(), 2));
+    cf!("WelfordOnline", WelfordOnline::new(e(), 3), WelfordOnline::new(e(), 5));
+    cf!("Vst", Vst::new(e(), 3), Vst::new(e(), 5));
+    cf!("Vsct", Vsct::new(e(), 3), Vsct::new(e(), 5));
+    cf!("HLNormalizer", HLNormalizer::new(e(), 3), HLNormalizer::new(e(), 5));
+    cf!("BinaryEntropy", BinaryEntropy::new(e(), 3), BinaryEntropy::new(e(), 5));
+    cf!("CenterOfGravity", CenterOfGravity::new(e(), 3), CenterOfGravity::new(e(), 5));
+    cf!("CorrelationTrendIndicator", CorrelationTrendIndicator::new(e(), 3), CorrelationTrendIndicator::new(e(), 5));
+    cf!("NoiseEliminationTechnology", NoiseEliminationTechnology::new(e(), 3), NoiseEliminationTechnology::new(e(), 5));
+    cf!("Rsi", Rsi::new(e(), 3), Rsi::new(e(), 2));
+    cf!("MyRSI", MyRSI::new(e(), 3), MyRSI::new(e(), 2));
+    cf!("PolarizedFractalEfficiency", PolarizedFractalEfficiency::new(e(), Sma::new(e(), 2), 3), PolarizedFractalEfficiency::new(e(), Sma::new(e(), 3), 4));
+    cf!("EhlersFisherTransform", EhlersFisherTransform::new(e(), Ema::new(e(), 2), 3), EhlersFisherTransform::new(e(), Ema::new(e(), 3), 4));
+    cf!("LaguerreFilter", LaguerreFilter::new(e(), 0.5), LaguerreFilter::new(e(), 0.8));
+    cf!("LaguerreRSI", LaguerreRSI::new(e(), 3), LaguerreRSI::new(e(), 5));
+    cf!("SuperSmoother", SuperSmoother::new(e(), 3), SuperSmoother::new(e(), 5));
+    cf!("RoofingFilter", RoofingFilter::new(e(), 3, 2), RoofingFilter::new(e(), 4, 3));
+    cf!("CyberCycle", CyberCycle::new(e(), 3), CyberCycle::new(e(), 7));
+    cf!("TrendFlex", TrendFlex::new(e(), 3), TrendFlex::new(e(), 5));
+    cf!("ReFlex", ReFlex::new(e(), 3), ReFlex::new(e(), 5));
+    cf!("WelfordRolling", WelfordRolling::new(e()), WelfordRolling::new(Echo::<f64>::new()));
+    cf!("Sma over Ema (nested)", Sma::new(Ema::new(e(), 2), 3), Sma::new(Ema::new(e(), 4), 2));
+    cf!("Tanh over LaguerreFilter (nested)", Tanh::new(LaguerreFilter::new(e(), 0.5)), Tanh::new(LaguerreFilter::new(e(), 0.8)));
+}
+
 pub fn specs(quick: bool) -> Vec<Spec> {
     let mut v = vec![];
     for n in [1usize, 2, 3] {
@@ -343,6 +434,12 @@ pub fn run(ctx: &Ctx) -> CheckOutput {
             JobOut { stats: st, viols: sink.take(), samples: vec![json!({"explorer":"TREE (+CLOSURE for single views)","view":spec.name(),"depth":depth})] }
         }));
     }
+    jobs.push(Box::new(move || {
+        let mut st = Stats::default();
+        let sink = Sink::new();
+        clone_from_static(&mut st, &sink);
+        JobOut { stats: st, viols: sink.take(), samples: vec![json!({"clause":"clone_from","views":"35 statically typed views, the target configured differently and holding another history","suffixes":"every sequence over {0.1,0.7,-3.3} of length 4"})] }
+    }));
     for n in if quick { vec![8usize, 11] } else { vec![5, 8, 11, 16, 23] } {
         for e in unary_catalogue() {
             if !e.has_n {
